@@ -108,6 +108,11 @@ func c09Lease(c *Ctx, p pingPool) {
 			return false
 		}
 		for _, g := range guardsAt(in.Block()) {
+			// the leased client was found closed: its close event has already taken it out of the pool and given the
+			// pool's count back (every store of true to `closed` sits in a function that decrements totalClientCount)
+			if _, f, base, okf := loadedField(g.Cond); okf && f == "closed" && base == client && g.True && closedMeansReleased(fn) {
+				return true
+			}
 			bo, ok := g.Cond.(*ssa.BinOp)
 			if !ok {
 				continue
@@ -689,4 +694,59 @@ func c09UnregisterBeforeNotify(c *Ctx) {
 		}
 	})
 	c.Check("C09.R7", funcKey(fn)+":unregistered-before-notify", notify.Pos(), before && !deferred, "the stream is removed from clientStreams before the listeners are notified", "the stream being reset is still registered in clientStreams while its listeners run: a pool that closes a draining go-away connection when ActiveRequestsNum()==0 still counts it, never closes the connection, and the connection leaks outside the pool")
+}
+
+// closedMeansReleased: in fn's package every store of true into a pool client's `closed` flag sits in a function that also
+// decrements the pool's client count (totalClientCount.Dec): a client found closed holds nothing of the pool any more.
+func closedMeansReleased(fn *ssa.Function) bool {
+	if fn.Pkg == nil {
+		return false
+	}
+	n := 0
+	ok := true
+	for _, m := range fn.Pkg.Members {
+		_ = m
+	}
+	var fns []*ssa.Function
+	for _, mem := range fn.Pkg.Members {
+		if f, isF := mem.(*ssa.Function); isF {
+			fns = append(fns, f)
+		}
+		if t, isT := mem.(*ssa.Type); isT {
+			for _, tt := range []types.Type{t.Type(), types.NewPointer(t.Type())} {
+				ms := fn.Prog.MethodSets.MethodSet(tt)
+				for i := 0; i < ms.Len(); i++ {
+					if f := fn.Prog.MethodValue(ms.At(i)); f != nil && f.Pkg == fn.Pkg {
+						fns = append(fns, f)
+					}
+				}
+			}
+		}
+	}
+	seen := map[*ssa.Function]bool{}
+	for _, f := range fns {
+		if seen[f] || len(f.Blocks) == 0 {
+			continue
+		}
+		seen[f] = true
+		for _, st := range storesToField(f, "activeClientPingPong", "closed", true) {
+			if b, isB := constBool(st.Val); !isB || !b {
+				continue
+			}
+			n++
+			dec := false
+			for _, cs := range callsIn(f, true, func(cc *ssa.CallCommon) bool { return methodName(cc) == "Dec" }) {
+				if _, fld, _, okf := fieldAddrInfo(cs.Instr.Common().Args[0]); okf && fld == "totalClientCount" {
+					dec = true
+				}
+				if _, fld, _, okf := loadedField(cs.Instr.Common().Args[0]); okf && fld == "totalClientCount" {
+					dec = true
+				}
+			}
+			if !dec {
+				ok = false
+			}
+		}
+	}
+	return ok && n > 0
 }
